@@ -64,9 +64,9 @@ var Endpoints = []*EP{
 	{Path: "/api/v1/wallets/folderName", Method: "GET"},
 	{Path: "/api/v1/wallet/newSeed", Method: "GET", In: "query", Fields: []F{f("entropy", "entropy")}},
 	{Path: "/api/v2/wallet/seed/verify", Method: "POST", In: "json", Fields: []F{rq("seed", "seed")}},
-	{Path: "/api/v1/wallet/create", Method: "POST", In: "form", Weight: 4, Fields: []F{rq("seed", "newseed"), f("seed-passphrase", "text"), rq("type", "wtype"), f("bip44-coin", "uint"),
+	{Path: "/api/v1/wallet/create", Method: "POST", In: "form", Weight: 8, Fields: []F{rq("seed", "newseed"), f("seed-passphrase", "text"), rq("type", "wtype"), f("bip44-coin", "uint"),
 		f("xpub", "xpub"), rq("label", "text"), f("scan", "smalluint"), f("encrypt", "bool"), f("password", "password"), f("private-keys", "seckeys")}},
-	{Path: "/api/v1/wallet/createTemp", Method: "POST", In: "form", Weight: 4, Undoc: true, Fields: []F{rq("seed", "newseed"), rq("type", "wtype"), f("bip44-coin", "uint"),
+	{Path: "/api/v1/wallet/createTemp", Method: "POST", In: "form", Weight: 8, Undoc: true, Fields: []F{rq("seed", "newseed"), rq("type", "wtype"), f("bip44-coin", "uint"),
 		f("xpub", "xpub"), rq("label", "text"), f("scan", "smalluint"), f("private-keys", "seckeys")}},
 	{Path: "/api/v1/wallet/newAddress", Method: "POST", In: "form", Fields: []F{rq("id", "walletid"), rq("num", "smalluint"), f("password", "password"), f("private-keys", "seckeys")}, Wallet: "det-plain.wlt"},
 	{Path: "/api/v1/wallet/scan", Method: "POST", In: "form", Fields: []F{rq("id", "walletid"), f("num", "smalluint"), f("password", "password")}, Wallet: "det-plain.wlt"},
@@ -530,7 +530,10 @@ func (g *Gen) any(kind string, w *WalletInfo) interface{} {
 		return badHash(g.txids)
 	case "blockhash":
 		return badHash(g.blockHash)
-	case "seq", "uint", "smalluint", "int", "entropy", "hours":
+	case "smalluint":
+		// counts whose cost is proportional to the value: small, or not a number at all
+		return []string{"0", "1", "2", "3", "10", "64", "100", "-1", "", "abc", "1.5", "+1", " 1", "1e1", "0x10", "٣", "00002", "1,2"}[r.Intn(18)]
+	case "seq", "uint", "int", "entropy", "hours":
 		if r.Intn(4) == 0 {
 			return fmt.Sprint(int(g.head) + r.Intn(3) - 1)
 		}
@@ -891,6 +894,9 @@ func (g *Gen) Generate(e *EP) *Req {
 		names = append(names, "unknown_param")
 		vals = append(vals, "1")
 	}
+	if (e.Path == "/api/v1/wallet/create" || e.Path == "/api/v1/wallet/createTemp") && r.Intn(3) != 0 {
+		names, vals = g.walletCreateScenario(e, wellFormed)
+	}
 	if !g.AllowSlow {
 		g.guardSlow(e, names, vals)
 	}
@@ -905,6 +911,52 @@ func (g *Gen) Generate(e *EP) *Req {
 		q.Headers = append(q.Headers, [2]string{"Accept-Encoding", "gzip"})
 	}
 	return q
+}
+
+// walletCreateScenario builds a coherent wallet-create request: a wallet type together with the
+// parameters that type reads (seed / seed passphrase and coin / xpub / private keys), each valid or
+// from the hostile dictionary
+func (g *Gen) walletCreateScenario(e *EP, wellFormed bool) ([]string, []interface{}) {
+	r := g.Rng
+	v := func(kind string) interface{} {
+		if wellFormed || r.Intn(2) == 0 {
+			return g.valid(kind, nil)
+		}
+		return g.any(kind, nil)
+	}
+	typ := []string{"deterministic", "bip44", "xpub", "collection"}[r.Intn(4)]
+	names := []string{"type", "label"}
+	vals := []interface{}{typ, v("text")}
+	switch typ {
+	case "deterministic":
+		names, vals = append(names, "seed"), append(vals, v("newseed"))
+	case "bip44":
+		names, vals = append(names, "seed"), append(vals, v("newseed"))
+		if r.Intn(2) == 0 {
+			names, vals = append(names, "seed-passphrase"), append(vals, v("text"))
+		}
+		if r.Intn(2) == 0 {
+			names, vals = append(names, "bip44-coin"), append(vals, v("uint"))
+		}
+	case "xpub":
+		x := g.any("xpub", nil)
+		for x == g.valid("xpub", nil) && !wellFormed { // the valid key is already a wallet: prefer the crafted ones
+			x = g.any("xpub", nil)
+		}
+		if wellFormed {
+			x = g.valid("xpub", nil)
+		}
+		names, vals = append(names, "xpub"), append(vals, x)
+	case "collection":
+		names, vals = append(names, "private-keys"), append(vals, v("seckeys"))
+	}
+	if r.Intn(3) == 0 {
+		names, vals = append(names, "scan"), append(vals, v("smalluint"))
+	}
+	if e.Path == "/api/v1/wallet/create" && r.Intn(4) == 0 {
+		names, vals = append(names, "encrypt", "password"), append(vals, "true", WalletPassword)
+	}
+	return names, vals
 }
 
 // SlowGuardWallet is the wallet that stays encrypted with the cheap scrypt parameters for a whole run
